@@ -238,6 +238,19 @@ class Gen:
                 return "%s[%s] = %s;" % (n, self.small_index(env), self.expr(env, t[:-2], 1))
         if k < 0.70:
             self.features.add("echo")
+            ivars = [n for n, t in env.items() if t == "int"]
+            if ivars and r.random() < 0.12:
+                # an untyped array literal whose elements depend on variables (unary forms included), echoed or assigned: evaluated
+                # afresh every time control passes here (loop counters make the values differ between passes)
+                self.features.add("array-literal-expr")
+                v = r.choice([n for n in ivars if n.startswith("i")] or ivars)
+                els = [r.choice(["-%s" % v, "-(%s * %s)" % (v, v), "-%s - 1" % v, "%s + 1" % v, "- -%s" % v, "-(%s)" % self.expr(env, "int", 1)])
+                       for _ in range(r.randrange(1, 4))]
+                arrs = [n for n, tt in env.items() if tt == "int[]"]
+                if arrs and r.random() < 0.5:
+                    a = r.choice(arrs)
+                    return "%s = {%s}; echo(%s);" % (a, ", ".join(els), a)
+                return "echo({%s});" % ", ".join(els)
             t = r.choice(SCALARS + ["arr"])
             if t == "arr":
                 arrs = [n for n, tt in env.items() if tt.endswith("[]")]
